@@ -184,9 +184,6 @@ func cmdCheck(args []string) int {
 		n := 0
 		clauseSeen := map[string]bool{}
 		for _, o := range r.Obls {
-			if os.Getenv("GOVC_DEBUG_LOOPS") != "" && strings.Contains(o.Kind, "inv-") {
-				fmt.Fprintf(os.Stderr, "obl %s props=%v has=%v\n", o.Name, o.Props, hasProp(o.Props, *prop))
-			}
 			if hasProp(o.Props, *prop) {
 				obls = append(obls, o)
 				n++
